@@ -8,10 +8,67 @@ T = {}
 def c(pid, built, technique, text, note, ref):
     T[pid] = dict(built=built, technique=technique, text=text, note=note, ref=ref)
 
-c("C01", True, "property-based testing (rapid): valid-polygon generators by construction + exact crossing oracle; shrunk failures become replay files",
-  "Generated search: tens of thousands (quick) to millions (thorough) of valid polygons built to hit pixel ties and collapses, on synthetic, RD and WebMercator grids, all flag combinations; every output edge pair is tested for a proper crossing with exact integer orientation predicates. Falsification only: silence means no crossing among the explored cases and sizes (<= 40 vertices per ring, <= 3 holes, <= 4 ids).",
-  "Trusted: harness kernel (exact predicates, grid model using tms20.MatrixBoundingBox for the extent), rapid. Open known finding F5 (invented edge, maxVisits>=3) is excluded by signature and reported as KNOWN-FINDING.",
+PBT = "property-based testing (pgregory.net/rapid): "
+KERNEL = "Trusted: harness kernel (exact integer predicates with 128 bit products, grid model with the extent from tms20.MatrixBoundingBox, routing reference cross-validated against exact-rational witness enumeration), rapid. "
+
+c("C01", True, PBT + "valid-polygon generators by construction + exact proper-crossing oracle over all output edge pairs; shrunk failures become replay files",
+  "Generated search: 20 000 (quick) to 4 000 000 (thorough) valid polygons built to hit pixel ties and collapses (edge-split growth, stars, combs, zig-zags, polyomino outlines, holes) on synthetic dyadic grids, NetherlandsRDNewQuad and WebMercatorQuad, 1-4 ids, all flag combinations; every pair of output edges of a tile matrix is tested for a proper crossing with exact orientation predicates. Falsification only: silence means no crossing among the explored cases and sizes (<= 40 vertices per ring, <= 3 holes, <= 4 ids).",
+  KERNEL + "Open known finding F5 (invented edge when the routed boundary passes a centre >= 3 times) is excluded by signature and reported as KNOWN-FINDING.",
   "DESIGN.md §5 C01")
+c("C02", True, PBT + "differential against an independent routing reference model (separating-axis test with symbolic shrink) + exhaustive enumeration of a quarter-pixel lattice slice",
+  "Three sub-checks: (a) PointIndex.SnapClosestPoints at every level against the reference for generated segments/occupied sets/grids (100 000 quick, 16 M thorough); (b) non-collapsing valid polygons must come back as exactly the routed boundary, ring by ring, direction sensitive; (c) exhaustive: all 28 561 segments on the quarter-pixel lattice of a 3x3 window x 30 occupied sets x 3 window positions (quick: 10 sets, 1 position). Exhaustive only for the stated slice, falsification beyond it.",
+  KERNEL + "F1 (fixed in f7c02fb) witnesses are replayed on every run.",
+  "DESIGN.md §5 C02")
+c("C03", True, PBT + "generated polygons on every accepted built-in set and id; oracle = nearest ideal pixel centre computed from the document numbers, tolerance = the deviation the tool reports",
+  "Every ordinate returned for 30 000 (quick) / 4.8 M (thorough) small polygons anchored at corners, splits and anywhere on the 7 accepted built-in sets and synthetic non-zero-origin grids is compared with the ideal grid derived from the document alone; cases where the reported deviation makes the test indiscriminate are counted as trivial.",
+  "Trusted: document numbers, pointindex.DeviationStats as the reported deviation (per the property statement), float64 arithmetic with the stated tolerance (dev + 1e-9 + 4 ulp).",
+  "DESIGN.md §5 C03")
+c("C04", True, PBT + "valid-polygon generators + three exact validity predicates (vertex provenance, half-pixel Chebyshev corridor via closed-box separating-axis test, coverage at lattice sample locations)",
+  "10 000 (quick) / 1.6 M (thorough) valid polygons incl. holes and collapse-prone templates; every output vertex must be the centre of a pixel holding an input vertex, sampled points of every output edge must stay within half a pixel of the input boundary, and every sampled location farther than a pixel from the boundary must be covered iff the input covers it. Clause 2 and 3 are sampled (one-directional: a reported excess is real).",
+  KERNEL + "Open known finding F5 excluded by signature (invented edge, maxVisits >= 3).",
+  "DESIGN.md §5 C04")
+c("C18", True, PBT + "collapse-biased valid-polygon generators + reference model (routed boundary) with exact explained-edge, hole-containment and signed-area predicates",
+  "15 000 (quick) / 2.4 M (thorough) valid polygons biased to collapse; for every requested tile matrix whose routed boundary passes no centre more than twice: every output edge is a straight run of routed edges, holes lie in or on their shell, and the signed area equals the routed boundary's, exactly.",
+  KERNEL, "DESIGN.md §5 C18")
+c("C05", True, PBT + "arbitrary (valid and invalid) polygon generators, both keep modes per case, structural invariant oracle",
+  "30 000 (quick) / 4.8 M (thorough) arbitrary polygons (repetitive scribbles, words over pixel centres, tiny rings, empty rings) on grids incl. WebMercator/UPS/ETRS89 (magnitudes above 2^53, y,x axis order); every returned ring is checked for orientation (exact area sign), closure, repetition, size, and the keep/no-keep prefix relation.",
+  KERNEL + "F4 and F9 (fixed) are covered by the generators.", "DESIGN.md §5 C05")
+c("C06", True, PBT + "arbitrary vertex sequences from a repetition grammar + exhaustive enumeration of short centre words + (thorough) native coverage-guided fuzzing; oracle = returns without panic within a confirmed hang limit",
+  "50 000 (quick) / 8 M (thorough) arbitrary polygons of up to 200 vertices per ring, plus ALL words without equal neighbours over 3/4/5 pixel centres up to length 10/8/6 (thorough 13/10/8) driving kmpDeduplicate/splitRing directly; run time growth is recorded, not judged. Liveness is decided only through a 10 s limit re-confirmed at 60 s in a fresh process.",
+  "Open known finding F10 (tile matrices deeper than quadtree level 32 panic with 'cannot make Z') is excluded by signature and reported as KNOWN-FINDING.", "DESIGN.md §5 C06")
+c("C07", True, PBT + "metamorphic relations: repetition in process and in a second process, every subset of rings reversed, reverse flag toggled",
+  "10 000 (quick) / 1.6 M (thorough) polygons x ~8 snaps each: three in-process repetitions, a digest comparison with a second process for up to 3000 multi-level cases per run (Go randomises map order per process), all 2^r-1 ring reversal subsets, and the reverse-flag relation ring by ring.",
+  KERNEL, "DESIGN.md §5 C07")
+c("C08", True, PBT + "metamorphic/differential: every non-empty subset of a drawn id set against the single-id results, round grids only",
+  "10 000 (quick) / 1.6 M (thorough) polygons on synthetic dyadic grids and NetherlandsRDNewQuad; for every subset S of 2-4 drawn ids keys(result) is a subset of S and result[z] deep-equals the result of requesting z alone.",
+  "Roundness is decided by the harness (span*1e10 mod 2^level == 0).", "DESIGN.md §5 C08")
+c("C09", True, PBT + "boundary-distance generators (1e-10 units .. 10 pixels, on the exclusive border, companion inside class) + exact extent oracle on the fixed point reading",
+  "50 000 (quick) / 8 M (thorough) polygons with 1-3 vertices displaced relative to the extent; outside => panic wrapping pointindex.OutsideGridError (ignore off) or an empty map (ignore on); inside on round grids => no such error; PointIndex.InsertPoint probed with every vertex.",
+  "Trusted: the extent as read from tms20.MatrixBoundingBox(0). F2 (fixed in 6d18eb6) is covered by the generator.", "DESIGN.md §5 C09")
+c("C10", True, PBT + "generated feature streams, outcome tables and delay plans against a sequential reference model with recording fake targets; also under the race detector",
+  "3 600 (quick) / 600 000 (thorough) streams through processing.ProcessFeatures with fakes; exact sequence equality per target (count, order, attributes, geometry, tile matrix id), return and no leaked goroutine; one sixth of the streams under -race with halt_on_error.",
+  "The snapping function is a fake with marker geometries (the real one is covered end to end by C13).", "DESIGN.md §5 C10")
+c("C11", True, PBT + "generated histories (gate schedules owning every step at the pipeline boundary) with invariants after every action; same machine under the race detector; real GeoPackage targets under the race detector",
+  "1 500 (quick) / 160 000 (thorough) gate schedules with prefix invariants after every action, done-at-return, goroutine-leak and confirmed-deadlock detection; 20% (quick) / 50% (thorough) under -race; plus ProcessFeatures with 2-5 real gpkg targets under -race (found F11).",
+  "The runtime scheduler still orders the internal goroutines: sampled, not enumerated. F11 (fixed in 0ec5fb4) witness replayed.", "DESIGN.md §5 C11")
+c("C12", True, PBT + "generated GeoPackage schemas, feature counts around page-size multiples and geometries; read-back oracle over rows, R-tree, extent and metadata",
+  "3 200 (quick) / 40 000 (thorough) generated target writes through SourceGeopackage.GetTableInfo -> TargetGeopackage.CreateTables/WriteFeatures; rows in order with attributes and decoded geometry, spatial index ids, recorded extent, geometry column, table_info and SRS row compared with the source.",
+  "Runs against the verif-tagged stub driver (go-sqlite3 + ST_* in Go), not libspatialite, which is not installed.", "DESIGN.md §5 C12")
+c("C13", True, PBT + "generated source GeoPackages, id lists, flags (short/long/env spellings), target paths and pre-existing files through the REAL binary; differential against the library + independent path rule",
+  "400 (quick) / 9 600 (thorough) runs of the texel binary built from the working tree; the expected files and rows are computed by calling snap.SnapPolygon in process; rows, attributes, geometry, spatial index, extent, metadata compared; crash expected when a polygon lies outside the grid with -iog off. Found F11.",
+  "Differential against the library (itself the subject of C01-C09); stub driver as C12.", "DESIGN.md §5 C13")
+c("C14", True, "exhaustive enumeration of the 14 built-in sets (through the real binary and the library) and of all single-field perturbations; rapid for perturbation pairs; independent true-quadtree predicate as a two-sided oracle",
+  "All 14 sets through the binary and the library (never a panic, agreement, accepted <=> true quadtree, pixel pitch measured from actual snapping = cellSize/16 for every id); all ~4 900 single-field perturbations of the 7 accepted sets at every level with a two-sided oracle; 5 000 (quick) / 320 000 (thorough) random perturbation pairs/triples.",
+  "The predicate uses the tool's stated 1.99-2.01 band for cell sizes; perturbations are generated clearly inside or outside it. F3 (fixed in 13755cc) is covered by the binary runs.", "DESIGN.md §5 C14")
+c("C15", True, PBT + "tiles/points over all built-in sets and their corner-of-origin twins against an independent extent computed from the document numbers",
+  "100 000 (quick) / 16 M (thorough) (set, matrix, tile, interior point, outside point) cases: ToNative, FromNative, MatrixBoundingBox, twin agreement, in x,y order decided from orderedAxes.",
+  "The independent extent trusts only the document numbers and orderedAxes (not tms20's EPSG axis table).", "DESIGN.md §5 C15")
+c("C16", True, PBT + "structure-aware JSON mutator over the shipped documents; round-trip, stability and an independent must-reject predicate; (thorough) native fuzzing for the no-panic clause",
+  "10 000 (quick) / 1.6 M (thorough) mutated documents (0-4 mutations) + the 15 shipped documents exhaustively: no panic, decode/encode/decode equality, byte-stable encoding, semantic equality for shipped documents, must-reject classes rejected. Found F7b.",
+  "Numbers confined to |v| <= 2^53. F6, F7, F7b, F8 (fixed) witnesses are replayed on every run.", "DESIGN.md §5 C16")
+c("C17", True, PBT + "random wide operands against a bit-by-bit interleave reference + exhaustive one/two-bit patterns",
+  "500 000 (quick) / 80 M (thorough) operand quadruples (round trip, parent key, linearity, injectivity, not-encodable above 2^32) plus all 2080 one- and two-bit patterns and their complements (exhaustive).",
+  "Bit-linearity + the exhaustive patterns is an argument for all 2^64 pairs, not exhaustive coverage.", "DESIGN.md §5 C17")
 
 ALL = ["C01","C02","C03","C04","C18","C05","C06","C07","C08","C09","C10","C11","C12","C13","C14","C15","C16","C17"]
 
